@@ -165,10 +165,17 @@ impl Sink {
 /// merge: every merged quantity is order-independent).
 pub fn par_judge<C: Sync, F: Fn(&C, &mut Sink) + Sync>(cases: &[C], f: F) -> Sink {
     use rayon::prelude::*;
-    cases
+    // rayon splits its input into contiguous pieces; job lists are often sorted by cost
+    // (or grow in cost with the index), so the cases are dealt out round-robin first: every
+    // piece then holds the same mix of cheap and expensive cases
+    const K: usize = 256;
+    let n = cases.len();
+    let order: Vec<usize> = (0..K.min(n)).flat_map(|r| (r..n).step_by(K)).collect();
+    debug_assert_eq!(order.len(), n);
+    order
         .par_iter()
-        .fold(Sink::new, |mut s, c| {
-            f(c, &mut s);
+        .fold(Sink::new, |mut s, &i| {
+            f(&cases[i], &mut s);
             s
         })
         .reduce(Sink::new, Sink::merge)
